@@ -2,7 +2,7 @@
 import json, os
 
 HERE = os.path.dirname(os.path.abspath(__file__))
-NOTE = ("Trusted base: z3 (a deterministic sample of its unsat answers - 1 in 50 quick, 1 in 10 thorough - is re-decided by cvc5 "
+NOTE = ("Trusted base: z3 (a systematic sample of its unsat answers - every 50th (quick) / 10th (thorough) per worker process - is re-decided by cvc5 "
         "on the to_smt2() dump, counts in evidence.coverage.counters; C19 also by z3 4.8), the symx executor (coverage query per shape), "
         "the relmodel oracle and, for SQL checks, the sqlmodel semantics validated against SQLite on every run. "
         "Every claim is bounded (slots, depth, parameter boxes) as stated in evidence.bounds.")
